@@ -161,6 +161,14 @@ impl ObjectWrite for ColorSpace {
         match *self {
             ColorSpace::DeviceCMYK => Ok(Primitive::name("DeviceCMYK")),
             ColorSpace::DeviceRGB => Ok(Primitive::name("DeviceRGB")),
+            ColorSpace::DeviceGray => Ok(Primitive::name("DeviceGray")),
+            ColorSpace::Pattern => Ok(Primitive::name("Pattern")),
+            ColorSpace::Named(ref name) => Ok(Primitive::Name(name.0.clone())),
+            ColorSpace::Icc(ref stream) => Ok(Primitive::Array(vec![Primitive::name("ICCBased"), stream.to_primitive(update)?])),
+            ColorSpace::CalGray(ref dict) => Ok(Primitive::Array(vec![Primitive::name("CalGray"), Primitive::Dictionary(dict.clone())])),
+            ColorSpace::CalRGB(ref dict) => Ok(Primitive::Array(vec![Primitive::name("CalRGB"), Primitive::Dictionary(dict.clone())])),
+            ColorSpace::CalCMYK(ref dict) => Ok(Primitive::Array(vec![Primitive::name("CalCMYK"), Primitive::Dictionary(dict.clone())])),
+            ColorSpace::Other(ref arr) => Ok(Primitive::Array(arr.clone())),
             ColorSpace::Indexed(ref  base, hival, ref lookup) => {
                 let base = base.to_primitive(update)?;
                 let hival = Primitive::Integer(hival.into());
